@@ -6,6 +6,7 @@
 package ev
 
 import (
+	"bytes"
 	"encoding/json"
 	"flag"
 	"fmt"
@@ -295,8 +296,10 @@ func RunN[S any](t *testing.T, id string, scale float64, gen func(*rapid.T) S, r
 			t.Skipf("replay is for %s", env.Test)
 		}
 		var s S
-		if err := json.Unmarshal(env.Scenario, &s); err != nil {
-			t.Fatalf("@@HARNESS-ERROR bad replay scenario: %v", err)
+		dec := json.NewDecoder(bytes.NewReader(env.Scenario))
+		dec.DisallowUnknownFields()
+		if err := dec.Decode(&s); err != nil {
+			t.Fatalf("@@HARNESS-ERROR bad replay scenario (written for an older scenario format?): %v", err)
 		}
 		n := 1
 		if os.Getenv("VERIF_REPLAY_N") != "" {
@@ -327,6 +330,7 @@ func RunN[S any](t *testing.T, id string, scale float64, gen func(*rapid.T) S, r
 	if shard == "" {
 		shard = "0"
 	}
+	runRegress(t, id, run)
 	rapid.Check(t, func(rt *rapid.T) {
 		s := gen(rt)
 		scen, err := json.Marshal(s)
@@ -348,6 +352,53 @@ func RunN[S any](t *testing.T, id string, scale float64, gen func(*rapid.T) S, r
 			rt.Fatalf("%s\nscenario: %s\nhistory:\n%s", v.Error(), clipStr(string(scen), 3000), strings.Join(c.note, "\n"))
 		}
 	})
+}
+
+// runRegress is the replay tier: every saved scenario under $VERIF_REGRESS/<id>/ (default /verif/regress) that
+// belongs to this test is executed once, without rapid, before the generated cases (spread over the shards).
+// These are shrunk scenarios that once exposed a defect (now repaired) or were written by hand for a region
+// the generator reaches rarely.
+func runRegress[S any](t *testing.T, id string, run func(S, *Case) *Violation) {
+	dir := os.Getenv("VERIF_REGRESS")
+	if dir == "" {
+		dir = "/verif/regress"
+	}
+	files, _ := filepath.Glob(filepath.Join(dir, id, "*.json"))
+	sort.Strings(files)
+	si, sn := Shard()
+	k := 0
+	for _, f := range files {
+		b, err := os.ReadFile(f)
+		if err != nil {
+			continue
+		}
+		var env struct {
+			Test     string          `json:"test"`
+			Scenario json.RawMessage `json:"scenario"`
+		}
+		if json.Unmarshal(b, &env) != nil || env.Test != t.Name() {
+			continue
+		}
+		k++
+		if (k-1)%sn != si {
+			continue
+		}
+		var s S
+		dec := json.NewDecoder(bytes.NewReader(env.Scenario))
+		dec.DisallowUnknownFields()
+		if err := dec.Decode(&s); err != nil {
+			fmt.Printf("@@REGRESS-SKIP %s: %v\n", f, err)
+			continue
+		}
+		c := &Case{}
+		v := run(s, c)
+		c.Label("regress_replayed")
+		record(id, c, env.Scenario)
+		if v != nil {
+			reportViolation(id, t.Name()+"#"+filepath.Base(f), v, f)
+			t.Errorf("regress %s: %s\nhistory:\n%s", f, v.Error(), strings.Join(c.note, "\n"))
+		}
+	}
 }
 
 func clipStr(s string, n int) string {
